@@ -120,6 +120,10 @@ fn solo(doc: &Doc, cfg: &Cfg, clock: Option<u64>) -> Outcome {
     .unwrap_or(Outcome::Panic("golden thread failed".into()))
 }
 
+fn cfg_of<'a>(scn: &'a Scn, req: &Req) -> &'a Cfg {
+    &scn.cfgs[req.cfg]
+}
+
 fn request_clock(scn: &Scn, req: &Req) -> Option<u64> {
     if scn.per_request_clock {
         Some(scn.clock_ns + 1_000_000_007 * req.client as u64)
@@ -668,7 +672,7 @@ impl Engine for C07 {
         for p in pairs.iter().rev() {
             let again = solo(&scn.docs[p.0], &scn.cfgs[p.1], p.2);
             res.stats.evaluations += 1;
-            if again != golden[p] {
+            if !same_outcome_modulo_local_id(&again, &golden[p], wants_local_styles(&scn.docs[p.0].0, &scn.cfgs[p.1])) {
                 res.violation(
                     "isolation/golden-pass-order",
                     "c07:golden-order-dependent",
@@ -708,7 +712,10 @@ impl Engine for C07 {
                 res.stats.evaluations += 1;
                 res.stats.probe("reference_repeated_in_fresh_process");
                 if let (Ok(c), Outcome::Ok(gb)) = (&cr, &golden[p]) {
-                    if c.code == Some(0) && !c.timed_out && &c.stdout != gb {
+                    if c.code == Some(0) && !c.timed_out && {
+                        let (ma, mb) = mask_local_id_pair(&c.stdout, gb);
+                        ma != mb
+                    } {
                         res.violation(
                             "isolation/in-process-differs-from-fresh-process",
                             "c07:isolation:bytes-differ:fresh-process-reference",
@@ -931,7 +938,7 @@ impl Engine for C07 {
                     );
                 }
                 if let (Outcome::Ok(gb), Some(acc)) = (g, &r.out_after) {
-                    if !gb.starts_with(acc) {
+                    if !is_prefix_modulo_local_id(acc, gb, wants_local_styles(&scn.docs[r.req.doc].0, cfg_of(&scn, &r.req))) {
                         res.violation(
                             "damage/partial-output-not-a-prefix",
                             "c07:partial-output-not-prefix",
@@ -964,7 +971,15 @@ impl Engine for C07 {
                 continue;
             }
             let g_for_fe: Outcome = g.clone();
+            // with local styles the root id is random by permission (C06): whatever it is made
+            // from, two runs may differ in that one token and in nothing else
+            let local_styles = cfg_of(&scn, &r.req).use_local_styles || scn.docs[r.req.doc].0.windows(16).any(|w| w == b"use-local-styles");
             let agrees = match (&r.outcome, &g_for_fe) {
+                (Outcome::Ok(a), Outcome::Ok(b)) if local_styles && a != b => {
+                    res.stats.probe("local_id_masked_compare");
+                    let (ma, mb) = mask_local_id_pair(a, b);
+                    ma == mb
+                }
                 (Outcome::Ok(a), Outcome::Ok(b)) => a == b,
                 // the statement asks for "an error", not for one message format across
                 // front-ends: texts are compared only between the library functions
@@ -1045,7 +1060,15 @@ impl Engine for C07 {
                         if pre.is_some() {
                             res.stats.probe("successful_overwrite_of_longer_file");
                         }
-                        if r.out_after.as_deref() != Some(gb.as_slice()) {
+                        let same = match r.out_after.as_deref() {
+                            Some(f) if local_styles && f != gb.as_slice() => {
+                                let (ma, mb) = mask_local_id_pair(f, gb);
+                                ma == mb
+                            }
+                            Some(f) => f == gb.as_slice(),
+                            None => false,
+                        };
+                        if !same {
                             res.violation(
                                 "agreement/output-file-differs",
                                 &format!("c07:output-file-differs:{fe}"),
